@@ -889,10 +889,14 @@ public:
 	    \param sz size of string
 	    \param tag tag to extract to
 	    \param val value to extract to
+	    \param tag_sz size of the tag buffer (an element whose tag does not fit is not extracted)
+	    \param val_sz size of the value buffer (an element whose value does not fit is not extracted)
 	    \return number of bytes consumed */
-	static unsigned extract_element(const char *from, const unsigned sz, char *tag, char *val)
+	static unsigned extract_element(const char *from, const unsigned sz, char *tag, char *val,
+		const unsigned tag_sz=FIX8_MAX_FLD_LENGTH, const unsigned val_sz=FIX8_MAX_FLD_LENGTH)
 	{
 		enum { get_tag, get_value } state(get_tag);
+		const char *const tag_end(tag + tag_sz - 1), *const val_end(val + val_sz - 1);
 
 		for (unsigned ii(0); ii < sz; ++ii)
 		{
@@ -905,6 +909,8 @@ public:
 						return *val = *tag = 0;
 					state = get_value;
 				}
+				else if (tag == tag_end)	// tag does not fit
+					return *val = *tag = 0;
 				else
 					*tag++ = from[ii];
 				break;
@@ -914,6 +920,8 @@ public:
 					*val = *tag = 0;
 					return ++ii;
 				}
+				if (val == val_end)	// value does not fit
+					return *val = *tag = 0;
 				*val++ = from[ii];
 				break;
 			}
@@ -931,10 +939,13 @@ public:
 	static unsigned extract_element_fixed_width(const char *from, const unsigned sz, const unsigned val_sz, char *tag, char *val)
 	{
 		*val = *tag = 0;
+		char *const tag_start(tag);
 		for (unsigned ii(0); ii < sz; ++ii)
 		{
 			if(isdigit(from[ii]))
 			{
+				if (tag - tag_start >= FIX8_MAX_FLD_LENGTH - 1)	// tag does not fit
+					return *tag_start = 0;
 				*tag++ = from[ii];
 				continue;
 			}
